@@ -34,7 +34,7 @@ Hypothesis HW : forall (i : nat) (s : Z), Z.of_nat i <= l1 -> 0 <= s < widthz ->
   0 <= s + shiftz (Z.of_nat i - 1) <= l2 ->
   W (Z.of_nat i) s = M i (Z.to_nat (s + shiftz (Z.of_nat i - 1))).
 (* finite interior cells are band cells *)
-Hypothesis Hband : forall i j : nat, M (S i) (S j) <> Inf ->
+Hypothesis Hband : forall i j : nat, Z.of_nat (S i) <= l1 -> Z.of_nat (S j) <= l2 -> M (S i) (S j) <> Inf ->
   band_lo l1 l2 (cw_window l1 l2 window0) (Z.of_nat i) <= Z.of_nat j < band_hi l1 l2 (cw_window l1 l2 window0) (Z.of_nat i).
 
 Definition active (rip : Z) : trace_region := if rip >? ri3z then TD else if rip >? ri2z then TC else TAB.
@@ -83,7 +83,7 @@ Proof.
   specialize (Hok (active_range rip Hrip) Hrip Hcip ltac:(unfold rip, cip; exact Hinv)).
   replace (tl_region (tcanon (active rip))) with (active rip) in * by (destruct (active rip); reflexivity).
   destruct Hok as (Ed & El & Eu & Ewd & Ewl & Ewu & Hin).
-  assert (Hb := Hband i' j' Hfin).
+  assert (Hb := Hband i' j' Hi Hj Hfin).
   specialize (Hin ltac:(unfold rip, cip; rewrite !Nat2Z.inj_succ; replace (Z.succ (Z.of_nat i') - 1) with (Z.of_nat i') by lia;
                         replace (Z.succ (Z.of_nat j') - 1) with (Z.of_nat j') by lia; exact Hb)).
   destruct Hin as (Hl0 & Hww & Hd0 & Hu1).
